@@ -39,6 +39,9 @@ ASSUMPTIONS = [
     'vyield/vnullodd/empty/+/</AND/IN-subquery/placeholders; ORDER BY, DISTINCT, LIMIT, PIVOT, HAVING and the '
     'other tables hold no per-process state (see the dynamic diff) and are not in the model',
     'subqueries scan the same table as the outer query (so the check is independent of DESIGN 7 D2)',
+    'statements outside the model language (FROM OPEN/CLOSE/CLEAR, ORDER BY/DISTINCT/LIMIT, PIVOT BY, HAVING, BALANCES, '
+    'JOURNAL, FROM-subqueries, #entries/#accounts) are run under driven schedules and compared with their serial '
+    'results only (8 scenario pairs x 2 topologies); the model theorems do not speak about them',
     'Connection.tables, ledger entries and options are only read by queries (checked by the dynamic diff of the '
     'module/class level state; per-connection objects are fingerprinted in the workload as well)',
     'memo tables internal to CPython/stdlib (functools.singledispatch dispatch cache, re pattern cache, decimal '
@@ -821,6 +824,90 @@ def check_cases(named_cases, schedules_of, tag):
     return stats, viol
 
 
+# statements outside the model's language: schedule-driven threads vs serial only (no model side)
+L_IO = [(2019, 4, [2, 1, -3]), (2020, 2, [5, -5]), (2020, 7, [3, 4, -7]), (2021, 3, [7, -7])]
+IMPL_ONLY = [
+    ('open-vs-plain', ['SELECT vyield(1), vyield(year), balance FROM OPEN ON 2020-06-01',
+                       'SELECT vyield(2), vyield(year), balance']),
+    ('close-clear-vs-plain', ['SELECT vyield(1), account, vyield(number) FROM CLOSE ON 2020-06-01 CLEAR',
+                              'SELECT vyield(2), account, vyield(number) FROM year = 2020']),
+    ('open-vs-open', ['SELECT vyield(1), account, sum(vyield(number)) FROM OPEN ON 2020-01-01 CLOSE ON 2021-01-01 GROUP BY 1, 2',
+                      'SELECT vyield(2), account, sum(vyield(number)) FROM OPEN ON 2021-01-01 GROUP BY 1, 2']),
+    ('order-distinct-limit', ['SELECT DISTINCT vyield(year) AS y, account ORDER BY 1 DESC, 2 LIMIT 3',
+                              'SELECT vyield(day) AS d, last(balance) GROUP BY 1 ORDER BY 1 LIMIT 2']),
+    ('pivot', ['SELECT account, vyield(year) AS y, sum(number) AS s GROUP BY 1, 2 PIVOT BY 1, 2',
+               'SELECT year, count(vyield(day)), sum(position) GROUP BY 1 HAVING count(*) > 1']),
+    ('balances-journal', ['BALANCES FROM vyield(year) = 2020', "JOURNAL 'Assets' FROM vyield(year) < 2021"]),
+    ('from-subquery', ['SELECT y, b FROM (SELECT vyield(year) AS y, balance AS b FROM #postings WHERE number > 0)',
+                       'SELECT vyield(year), type FROM #entries']),
+    ('subquery-other-table', ["SELECT vyield(day), account IN (SELECT account FROM #accounts), balance",
+                              "SELECT vyield(year) IN (SELECT vyield(year(date)) FROM #entries WHERE type = 'transaction'), balance"]),
+]
+
+
+def _text_job(conn, text):
+    def job():
+        try:
+            cur = conn.cursor()
+            cur.execute(_parsed_copy(text))
+            return [str(c.name) for c in cur.description], [[str(v) for v in row] for row in cur.fetchall()]
+        except HarnessError:
+            raise
+        except Exception as e:  # noqa: BLE001
+            return ['exception', type(e).__name__, str(e)[:120]]
+    return job
+
+
+def _impl_only_unit(args):
+    texts, topo, schedules = args
+
+    def jobs():
+        shared = connection(L_IO)
+        return [_text_job(shared if topo == 'shared-connection' else connection(L_IO), t) for t in texts]
+    ser = [j() for j in jobs()]
+    segs = []
+    for i, j in enumerate(jobs()):
+        S.slots = {threading.get_ident(): i}
+        S.free = {i}
+        S.log = []
+        try:
+            j()
+        finally:
+            S.slots = {}
+        segs.append(len(S.log) + 1)
+    if schedules is None:
+        return ser, segs
+    return ser, [run_threads(s, jobs())[0] for s in schedules]
+
+
+def check_impl_only(rng, cap):
+    viol, runs, errs = [], 0, 0
+    units, meta = [], []
+    for name, texts in IMPL_ONLY:
+        for topo in ('shared-connection', 'connection-per-thread'):
+            ser, segs = _impl_only_unit((texts, topo, None))
+            errs += sum(1 for r in ser if r and r[0] == 'exception')
+            if sum(segs) <= 14 and cap >= 3432:
+                scheds = all_interleavings(segs)[0]
+            else:
+                scheds = pick_schedules(rng, segs, min(cap, 150))
+            for j in range(0, len(scheds), 8):
+                units.append((texts, topo, scheds[j:j + 8]))
+                meta.append((name, topo, texts, scheds[j:j + 8]))
+    outs = core.pmap(_impl_only_unit, units, chunksize=1)
+    for (name, topo, texts, scheds), (ser, res) in zip(meta, outs):
+        for s, r in zip(scheds, res):
+            runs += 1
+            if r != ser and not viol:
+                sig = f'schedule-dependent:{name}:{topo}: ' + ' || '.join(texts) + f' schedule={s}'
+                viol.append(core.Violation('schedule-dependent-result',
+                                           f'{topo}: {" || ".join(texts)} schedule={s}: threads return {r} but serial '
+                                           f'execution returns {ser}',
+                                           {'texts': texts, 'topology': topo, 'schedule': s, 'serial': ser, 'scheduled': r},
+                                           signature=sig))
+    return runs, errs, viol
+
+
 def free_running(rng, rounds, nthreads=4):
     """SMOKE TEST ONLY: no hook, the interpreter decides when to switch."""
     cases = [c for n, c in corpus_cases() if n in ('double-balance', 'aggregates', 'in-subquery', 'params-named',
@@ -897,6 +984,8 @@ def run(tier, rng):
         head = [(n, c) for n, c in corpus if n == 'double-balance'][:1]
         stats3, v = check_cases(head, lambda c, segs: all_interleavings(segs)[0], 'c20c')
         violations += v
+    io_runs, io_errs, v = check_impl_only(rng, 10 if quick else 3432)
+    violations += v
     fr_runs, fr_bad = free_running(rng, 3 if quick else 30)
     for case, res, ser in fr_bad[:1]:
         violations.append(core.Violation('free-running-mismatch', f'free-running threads: {describe(case)} gave {res}, serial {ser}',
@@ -930,6 +1019,9 @@ def run(tier, rng):
         'exhaustive': exhaustive,
         'all_interleavings_runs': stats3['runs'] if stats3 else 0,
         'free_running_smoke_test_executions': fr_runs,
+        'impl_only_runs_outside_model_language': io_runs,
+        'impl_only_statements_raising': io_errs,
+        'impl_only_scenarios': [n for n, _ in IMPL_ONLY],
     })
     for k in ('feature_hist', 'yields_per_thread', 'schedules_per_case', 'switches_hist', 'error_results', 'row_results'):
         cov[k] = m[k]
@@ -957,6 +1049,9 @@ def replay(rec):
         if 'threadsafety' in rec:
             return beanquery.threadsafety == 2
         return not gen_inventory()['cells']
+    if 'texts' in rec:
+        ser, res = _impl_only_unit((rec['texts'], rec['topology'], [rec['schedule']]))
+        return res[0] == ser
     case = _fix_case(rec['case'])
     if 'schedule' not in rec:
         return free_running_case(case)
@@ -1182,8 +1277,11 @@ def _workload():
     for rep in range(2):
         conn = connection(txs)
         fp0 = _fp(conn.tables, 5, set())
+        fp1 = _conn_fp(conn)
         for q, params in WORKLOAD:
             n += 1
+            if _conn_fp(conn) != fp1:
+                return n, [f'<connection>.tables after workload statement {n - 1}']
             try:
                 cur = conn.cursor()
                 cur.execute(q, params)
@@ -1209,6 +1307,10 @@ def _workload():
         if _fp(conn.tables, 5, set()) != fp0:
             return n, ['<connection>.tables']
     return n, []
+
+
+def _conn_fp(conn):
+    return _fp([conn.tables, conn.options.get('dcontext') is not None, len(conn.errors)], 4, set())
 
 
 def compile_writes_statement():
